@@ -29,6 +29,7 @@ import (
 	"time"
 
 	"github.com/oauth2-proxy/oauth2-proxy/v7/pkg/authentication/basic"
+	"golang.org/x/crypto/bcrypt"
 )
 
 const rlUsers = 4 // users u1..u4; u0 is present with password 1 in every well-formed version
@@ -84,7 +85,12 @@ func (t *rlHt) render(v rlVersion) string {
 	}
 	for u := 0; u <= rlUsers; u++ {
 		if p, ok := v.users[u]; ok && v.kind != 2 {
-			fmt.Fprintf(&sb, "u%d:%s\n", u, htpasswdSHA(fmt.Sprintf("pw%d", p)))
+			if u == 1 {
+				// bcrypt entries: a validation takes milliseconds, so validations really are in flight across reloads
+				fmt.Fprintf(&sb, "u%d:%s\n", u, rlBcrypt(fmt.Sprintf("pw%d", p)))
+			} else {
+				fmt.Fprintf(&sb, "u%d:%s\n", u, htpasswdSHA(fmt.Sprintf("pw%d", p)))
+			}
 		}
 	}
 	if v.kind == 1 {
@@ -130,7 +136,15 @@ func (t *rlUm) render(v rlVersion) string {
 		}
 	}
 	if v.kind == 1 {
-		sb.WriteString("bad\"quote@example.com\n")
+		switch v.shape {
+		case 1:
+			// inconsistent field count: the first record fixes the column count, a later line has more columns
+			sb.WriteString("extra@example.com,unexpected,columns\n")
+		case 2:
+			sb.WriteString("\"unterminated@example.com\n")
+		default:
+			sb.WriteString("bad\"quote@example.com\n")
+		}
 	}
 	return sb.String()
 }
@@ -140,6 +154,21 @@ func (t *rlUm) answer(u int) int {
 		return 1
 	}
 	return 0
+}
+
+var rlBcryptCache sync.Map
+
+// rlBcrypt: a bcrypt hash of pw (minimum cost, computed once per password)
+func rlBcrypt(pw string) string {
+	if h, ok := rlBcryptCache.Load(pw); ok {
+		return h.(string)
+	}
+	b, err := bcrypt.GenerateFromPassword([]byte(pw), bcrypt.MinCost)
+	if err != nil {
+		panic(err)
+	}
+	rlBcryptCache.Store(pw, string(b))
+	return string(b)
 }
 
 func writeAtomic(path, content string) {
